@@ -123,6 +123,22 @@ fn cases(thorough: bool) -> Vec<Case> {
             out.push(Case { fname, args: vec![Arg::Q(false, vec![key("m"), Part::Filter(vec![vec![un(vec![key("zz")], UnOp::Exists, false)]]), key("x")])], lets: vec![], doc: m(vec![("m", V::List(items))]), form: "empty-selection" });
         }
     }
+    // element-wise over every ordered pair of argument values (quick: the first 14 values; thorough: all 32 x 32)
+    let nv = if thorough { vals.len() } else { 14 };
+    for fname in unary_fns {
+        for a in &vals[..nv] {
+            for b2 in &vals[..nv] {
+                out.push(Case { fname, args: vec![Arg::Q(false, vec![key("l"), Part::All])], lets: vec![], doc: m(vec![("l", l(vec![a.clone(), b2.clone()]))]), form: "pair" });
+            }
+        }
+    }
+    // round trips over an integer range: parse_int(parse_string(n)) = n, parse_float(parse_string(n)) = n.0, parse_string(parse_int("n")) = "n"
+    let lim: i64 = if thorough { 1200 } else { 60 };
+    for n in -lim..=lim {
+        out.push(Case { fname: "parse_int", args: vec![Arg::Call("parse_string".into(), vec![qa()])], lets: vec![], doc: m(vec![("a", i(n))]), form: "roundtrip-int" });
+        out.push(Case { fname: "parse_float", args: vec![Arg::Call("parse_string".into(), vec![qa()])], lets: vec![], doc: m(vec![("a", i(n))]), form: "roundtrip-float" });
+        out.push(Case { fname: "parse_string", args: vec![Arg::Call("parse_int".into(), vec![qa()])], lets: vec![], doc: m(vec![("a", s(&n.to_string()))]), form: "roundtrip-string" });
+    }
     // nested calls
     for (outer, inner, v) in [
         ("to_upper", "to_lower", s("AbC")),
